@@ -94,7 +94,7 @@ def check(out: Outcome, p: dict, xs: list, runners: list, label: str = "") -> No
     hist = []
     shrunk = 0
     mag = max([1.0] + [abs(v) for v in xs])
-    ab = corr.AdwinBudget()
+    ab = corr.AdwinBudget(fp["m"])
     for t, x in enumerate(xs, 1):
         before = int(d.width)
         pre = copy.deepcopy(d)
